@@ -882,3 +882,116 @@ def gen_GeomPy(repo):
     L.append("def graphIndexBad (size p : Int) : Bool := %s" % bad)
     L.append("\nend Strengths.Gen")
     return "\n".join(L) + "\n"
+
+
+# =============================================================================================
+# RDSystem defaults and accessors (C13): which units system the default state is expressed in, the fallback chain of
+# get_value_in_env, the default density / chemostat values, the wrapping of raw numbers in set_state
+# =============================================================================================
+@group
+def gen_SystemPy(repo):
+    rds = PySrc(repo, "src/strengths/rdsystem.py")
+    vp = PySrc(repo, "src/strengths/value_processing.py")
+    L = ["namespace Strengths.Gen\n"]
+
+    # ---- get_value_in_env: dict -> [environment, "default"] -> default ; else the value itself
+    gv = vp.func("get_value_in_env")
+    top = gv.body[-1] if isinstance(gv.body[-1], ast.If) else None
+    if top is None or _norm(vp, top.test) != "isdict(value)" or len(top.orelse) != 1 or _norm(vp, top.orelse[0]) != "returnvalue":
+        raise AnchorLost("value_processing.py:get_value_in_env outer shape")
+    chain = []
+    node = top.body[0] if len(top.body) == 1 else None
+    while isinstance(node, ast.If):
+        m = re.fullmatch(r"(.+)inlist\(value\)", _norm(vp, node.test))
+        if not m or len(node.body) != 1 or _norm(vp, node.body[0]) != "returnvalue[%s]" % m.group(1):
+            raise AnchorLost("value_processing.py:get_value_in_env lookup chain")
+        chain.append(m.group(1))
+        if len(node.orelse) == 1 and isinstance(node.orelse[0], ast.If):
+            node = node.orelse[0]
+        else:
+            if len(node.orelse) != 1 or _norm(vp, node.orelse[0]) != "returndefault":
+                raise AnchorLost("value_processing.py:get_value_in_env final default")
+            node = None
+    if not chain or chain[0] != "environment":
+        raise AnchorLost("value_processing.py:get_value_in_env first lookup")
+    fall = []
+    for c in chain[1:]:
+        if not (c.startswith('"') and c.endswith('"')):
+            raise AnchorLost("value_processing.py:get_value_in_env fallback key " + c)
+        fall.append(c[1:-1])
+    L.append("/-- `get_value_in_env`: keys tried after the environment label itself, in order; then the `default` argument -/")
+    L.append("def envFallbackKeys : List String := %s\n" % lean_list([lean_str(c) for c in fall]))
+
+    # ---- generate_species_state
+    gss = rds.func("generate_species_state")
+    call_ = None
+    formula = None
+    for n in ast.walk(gss):
+        if isinstance(n, ast.Call) and _norm(rds, n.func) == "valproc.get_value_in_env":
+            call_ = {k.arg: k.value for k in n.keywords}
+        if isinstance(n, ast.Assign) and _norm(rds, n.targets[0]) == "state[i]":
+            formula = _norm(rds, n.value)
+    if call_ is None or sorted(call_) != ["default", "environment", "value"]:
+        raise AnchorLost("rdsystem.py:generate_species_state get_value_in_env call")
+    if _norm(rds, call_["value"]) != "species.density" or _norm(rds, call_["environment"]) != "network.environments[cell_env[i]]":
+        raise AnchorLost("rdsystem.py:generate_species_state value / environment arguments")
+    dflt = call_["default"]
+    if not (isinstance(dflt, ast.Call) and _norm(rds, dflt.func) == "UnitValue" and len(dflt.args) == 2):
+        raise AnchorLost("rdsystem.py:generate_species_state default density")
+    dval = const_number(rds, dflt.args[0], {})
+    dunit = const_str(dflt.args[1])
+    ret = _norm(rds, gss.body[-1].value) if isinstance(gss.body[-1], ast.Return) else None
+    if formula is None or ret is None:
+        raise AnchorLost("rdsystem.py:generate_species_state entry formula / return")
+    L.append("/-- `generate_species_state`: default density, entry formula, returned array (normalised source text) -/")
+    L.append("def defaultDensityValue : Rat := %s" % lean_rat(dval))
+    L.append("def defaultDensityUnit : String := %s" % lean_str(dunit))
+    L.append("def speciesStateEntry : String := %s" % lean_str(formula))
+    L.append("def speciesStateReturn : String := %s\n" % lean_str(ret))
+
+    # ---- generate_species_chemostats
+    gsc = rds.func("generate_species_chemostats")
+    call_, entry = None, None
+    for n in ast.walk(gsc):
+        if isinstance(n, ast.Call) and _norm(rds, n.func) == "valproc.get_value_in_env":
+            call_ = {k.arg: k.value for k in n.keywords}
+        if isinstance(n, ast.Assign) and _norm(rds, n.targets[0]) == "chstt[i]":
+            entry = _norm(rds, n.value)
+    if call_ is None or _norm(rds, call_.get("value")) != "species.chstt" \
+            or _norm(rds, call_.get("environment")) != "network.environments[cell_env[i]]" or entry is None:
+        raise AnchorLost("rdsystem.py:generate_species_chemostats")
+    L.append("/-- `generate_species_chemostats`: default flag and entry conversion -/")
+    L.append("def defaultChemostatValue : Int := (%d : Int)" % int(const_number(rds, call_["default"], {})))
+    L.append("def speciesChemEntry : String := %s\n" % lean_str(entry))
+
+    # ---- generate_system_state / chemostats: per species, default branch, concatenation order
+    def concat_of(fn, what):
+        loop = None
+        for st in fn.body:
+            if isinstance(st, ast.For) and _norm(rds, st.iter) == "network.species":
+                loop = st
+        if loop is None or len(loop.body) != 1 or not isinstance(loop.body[0], ast.If):
+            raise AnchorLost("rdsystem.py:%s species loop" % what)
+        return [_norm(rds, s) for s in loop.body[0].orelse]
+    L.append("/-- `generate_system_state` / `generate_system_chemostats`: the default branch of the per-species loop -/")
+    L.append("def systemStateDefaultBranch : List String := %s" % lean_list([lean_str(x) for x in concat_of(rds.func("generate_system_state"), "generate_system_state")]))
+    L.append("def systemChemDefaultBranch : List String := %s\n" % lean_list([lean_str(x) for x in concat_of(rds.func("generate_system_chemostats"), "generate_system_chemostats")]))
+
+    # ---- RDSystem.set_default_state / set_default_chemostats / set_state / set_chemostat / getters
+    def body_text(name):
+        fn = rds.func(name, "RDSystem")
+        return [_norm(rds, s) for s in fn.body if not (isinstance(s, ast.Expr) and isinstance(s.value, ast.Constant))]
+    sds = body_text("set_default_state")
+    m = re.fullmatch(r"self\._state=generate_system_state\(self\.network,self\.space,(self\.[a-z_.]+),override_species_state_dict\)", sds[0]) if len(sds) == 1 else None
+    if not m:
+        raise AnchorLost("rdsystem.py:RDSystem.set_default_state")
+    L.append("/-- `set_default_state`: the units system the default state is expressed in -/")
+    L.append("def defaultStateUnitsSource : String := %s" % lean_str(m.group(1)))
+    L.append("def setDefaultChemostatsBody : List String := %s" % lean_list([lean_str(x) for x in body_text("set_default_chemostats")]))
+    L.append("def setStateBody : List String := %s" % lean_list([lean_str(x) for x in body_text("set_state")]))
+    L.append("def setChemostatBody : List String := %s" % lean_list([lean_str(x) for x in body_text("set_chemostat")]))
+    L.append("def getStateBody : List String := %s" % lean_list([lean_str(x) for x in body_text("get_state")]))
+    L.append("def getChemostatBody : List String := %s" % lean_list([lean_str(x) for x in body_text("get_chemostat")]))
+    L.append("def getStateIndexBody : List String := %s" % lean_list([lean_str(x) for x in body_text("get_state_index")]))
+    L.append("\nend Strengths.Gen")
+    return "\n".join(L) + "\n"
